@@ -404,6 +404,36 @@ func runC14(o *opts) {
 				add(c)
 			}
 		}
+		// what COMMIT records for a file is the digest of its bytes too - also when the file lives on
+		// another file system than the project (reached through a linked directory) and is then
+		// either refused or copied: a case only when the commit succeeds
+		if o.shm != "" {
+			for k := 0; k < 3; k++ {
+				base := filepath.Join(o.out, fmt.Sprintf("c14proj%d", k))
+				ext, err := os.MkdirTemp(o.shm, "c14ext")
+				if err != nil {
+					break
+				}
+				p := newProject(o, base, "in")
+				p.init()
+				data := r.bytes([]int{700, 65536, 70000}[k])
+				must(os.WriteFile(filepath.Join(ext, "data.bin"), data, 0o644))
+				must(os.Symlink(ext, filepath.Join(p.Root, "ext")))
+				must(os.WriteFile(filepath.Join(p.Root, "s.yaml"), []byte("outputs:\n  ext/data.bin: {}\n"), 0o644))
+				cargs := []string{"commit"}
+				if k == 2 {
+					cargs = append(cargs, "--copy")
+				}
+				if p.dud("", "stage", "add", "s.yaml").Exit == 0 && p.dud("", cargs...).Exit == 0 {
+					if rec := loadStage(filepath.Join(p.Root, "s.yaml")); rec != nil && len(rec.Out) == 1 {
+						cs := rec.Out[0].Cs
+						add(&case14{evs: []ev14{{data, 1}}, data: data, kind: "commit-recorded-other-filesystem", res: &cs})
+					}
+				}
+				os.RemoveAll(ext)
+				os.RemoveAll(base)
+			}
+		}
 		os.RemoveAll(tmp)
 	}
 	// distinct non-trivial: distinct (data, script) pairs with at least 2 events or len>0
